@@ -17,6 +17,8 @@ THEOREMS = [
     "Spowtd.components_series",
     "Spowtd.mainComponent_spec",
     "Spowtd.main_body_connected",
+    "Spowtd.alignSeries_total",
+    "Spowtd.alignSeries_oneSeries_iff",
 ]
 TRUSTED_BASE = [
     "Lean 4.33 kernel; axioms propext, Classical.choice, Quot.sound only (audited per theorem on every run)",
@@ -76,9 +78,13 @@ def gen_collection(rng):
     return series, member
 
 
+import random as _random
+LAYOUT_RNG = _random.Random(8)
+
+
 def impl_align(fo, series, step):
     """get_series_time_offsets + the re-origin of recession.py (top level), as exact-friendly dicts"""
-    arg = [(np.array(t), np.array(h)) for t, h in series]
+    arg = [(common.any_layout(LAYOUT_RNG, np.array(t), 0.2), common.any_layout(LAYOUT_RNG, np.array(h), 0.2)) for t, h in series]
     snap = common.snapshot(arg)
     idx, offs, mapping = fo.get_series_time_offsets(arg, step)
     if not common.same_as_snapshot(arg, snap):
